@@ -42,13 +42,16 @@ package document
 //@   invariant forall k string :: (has(c.numInstances, k) <==> seen(k)) && (seen(k) ==> has(m.numInstances, k) && c.numInstances[k] == m.numInstances[k])
 
 //@ func (*FootnoteManager).clone
-//@ props C17
+//@ props C17, C15
 //@ modifies nothing
 //@ ensures m == nil ==> result == nil
 //@ ensures m != nil ==> fresh(result) && result.footnotes != nil && fresh(result.footnotes) && result.endnotes != nil && fresh(result.endnotes)
 //@ ensures m != nil ==> result.nextFootnoteID == m.nextFootnoteID && result.nextEndnoteID == m.nextEndnoteID
 //@ ensures m != nil ==> forall k string :: (has(result.footnotes, k) <==> has(m.footnotes, k)) && (has(m.footnotes, k) ==> result.footnotes[k] == m.footnotes[k])
 //@ ensures m != nil ==> forall k string :: (has(result.endnotes, k) <==> has(m.endnotes, k)) && (has(m.endnotes, k) ==> result.endnotes[k] == m.endnotes[k])
+// (C15) the copy of a registry that satisfies the registry invariant (zz_contracts_verif_notes.go) satisfies it: same notes under
+// the same keys, same next ids, so no id of the source is ever handed out again by the copy
+//@ ensures m != nil && fnRegOK(m) ==> fnRegOK(result)
 //@ loop 1
 //@   invariant unchangedHeap() && c != nil && fresh(c) && c.footnotes != nil && fresh(c.footnotes) && c.endnotes != nil && fresh(c.endnotes)
 //@   invariant c.nextFootnoteID == m.nextFootnoteID && c.nextEndnoteID == m.nextEndnoteID
